@@ -31,7 +31,13 @@ run_demo() { # returns 0 if the demo passes
     esac
     hint=$(grep -m3 -oE '(cmd/pql|parser)/?' "$DEMO" | head -1)
     cp "$DEMO" "$d/zz_demo_test.go"
-    timeout -s KILL 600 go test -count=1 -race -run . "./$d" >"$SCR/demo.out" 2>&1; rc=$?
+    tags=$(grep -m1 '^//go:build ' "$DEMO" | sed 's|^//go:build ||')
+    # external test packages (pql_test) live next to the package they test
+    case "$pkg" in pql_test) d=. ;; parser_test) d=parser ;; main_test) d=cmd/pql ;; esac
+    if grep -q 'cmd/pql' "$DEMO" && [ "$pkg" = main ]; then d=cmd/pql; fi
+    [ -f "$d/zz_demo_test.go" ] || cp "$DEMO" "$d/zz_demo_test.go"
+    timeout -s KILL 600 go test -count=1 -race ${tags:+-tags "$tags"} -run . "./$d" >"$SCR/demo.out" 2>&1; rc=$?
+    if grep -q 'no tests to run' "$SCR/demo.out"; then rc=98; fi
     rm -f "$d/zz_demo_test.go"
     return $rc
   elif [ -d "$SD/demo$X" ]; then
